@@ -81,7 +81,26 @@ def permutations(tier, seed, **opts):
     return r
 
 
-FUNCS = {'permutations': permutations}
+def catalogue(tier, seed, **opts):
+    """fixed topology outside the random generator: two dividend-paying firms and one capitalist sector (known finding F8: the recipient of
+    the second firm's dividend is found by scanning the country's sectors for a DIV variable, which the first firm itself has by then)"""
+    import C01
+    r = Result('the two-dividend-payers topology of dyn/C01.py under 3 fixed permutations of the declarations')
+    (cid, prog) = [c for c in C01.catalogue_programs() if c[0] == 'two-dividend-payers'][0]
+    for perm in ([4, 6, 0, 2, 7, 1, 8, 3, 5], [0, 3, 7, 2, 1, 5, 4, 6, 8], [5, 6, 7, 4, 3, 0, 8, 1, 2]):
+        order = [(0, i) for i in perm]
+        try:
+            bad = run_case(prog, order)
+        except Exception as ex:
+            bad = 'raised %s: %s' % (type(ex).__name__, str(ex)[:200])
+        r.case(('two-dividend-payers', tuple(perm)), True)
+        if bad:
+            r.fail('two-dividend-payers', {'program': prog, 'order': order}, bad)
+            break
+    return r
+
+
+FUNCS = {'permutations': permutations, 'catalogue': catalogue}
 
 
 def replay(payload):
